@@ -158,10 +158,14 @@ def r2(ctx, facts, model):
 def r3(ctx, facts, model):
     n = 0
     for b in model.bodies:
-        for i, (bb, t) in enumerate(model.death_sites(b)):
+        sites = [(bb, b.arg_origin(bb, 1), model.index_key(b, b.arg_origin(bb, 1)), "alive bit cleared") for bb, t in model.death_sites(b)]
+        # the generation slot dying is a death too, whether or not the alive bit was set (a not-yet-merged creation)
+        for dbb, k in model.gen_slot_calls(b, model.die):
+            if k is not None:
+                io_ = b.arg_origin(b.call_of(b.arg_origin(dbb, 0))[0], 1) if b.call_of(b.arg_origin(dbb, 0)) else ("unknown",)
+                sites.append((dbb, io_, k, "generation slot dies"))
+        for i, (bb, io, key, what) in enumerate(sites):
             n += 1
-            io = b.arg_origin(bb, 1)
-            key = model.index_key(b, io)
             rem = [rbb for rbb, rt in model.calls_on_field(b, ("killed",), {"remove"}, "AtomicBitSet") if model.index_key(b, b.arg_origin(rbb, 1)) == key]
             okA = False
             if rem:
@@ -175,7 +179,7 @@ def r3(ctx, facts, model):
                 from_killed = any(r[0] == "param" and r[1] == 1 and r[2][:1] == ("killed",) for r in b.roots(io))
                 okB = from_killed and b.must_pass(bb, clears)[0]
             ok = okA or okB
-            ctx.ob("C02-R3", "%s death #%d clears the pending kill" % (b.path, i), ok, b.loc(bb),
+            ctx.ob("C02-R3", "%s death #%d (%s) clears the pending kill" % (b.path, i, what), ok, b.loc(bb),
                    "" if ok else "an index dies while its pending deferred-kill bit may stay set: the next maintain would kill whatever entity then "
                    "occupies the index (#533) (per-index killed.remove on same index: %s, bulk killed.clear after a loop over killed: %s)" % (bool(rem), bool(clears)))
     ctx.floor("C02-R3", "death sites", n, 2)
